@@ -49,15 +49,89 @@ def raised_in(e) -> str | None:
     return where
 
 
+class BaseBoom(BaseException):
+    """a workload exception that is not an Exception subclass"""
+
+    def __init__(self, tag):
+        super().__init__(tag)
+        self.tag = tag
+
+
 def exc_desc(e) -> dict:
     d = {"type": type(e).__name__}
-    if isinstance(e, Boom):
-        d["tag"] = e.tag
-    elif isinstance(e, BaseExceptionGroup):
+    if isinstance(e, BaseExceptionGroup):
         d["members"] = [exc_desc(x) for x in e.exceptions]
+    elif getattr(e, "tag", None) is not None:
+        d["tag"] = e.tag  # workload exceptions carry the tag of the callback invocation that raised them
+        d["kind"] = getattr(e, "kind", "boom")
     else:
         d["msg"] = str(e)[:120]
     return d
+
+
+def make_exception(kind: str, tag: str) -> BaseException:
+    """the exception classes a callback may raise besides ExitMainLoop: the workload's own, plus classes that the
+    loops' code or their libraries treat specially on some error path"""
+    import errno
+
+    if kind == "boom":
+        e = Boom(tag)
+    elif kind == "baseboom":
+        e = BaseBoom(tag)
+    elif kind.startswith("zmq_"):
+        import zmq
+
+        e = {
+            "zmq_again": lambda: zmq.error.Again(),
+            "zmq_eintr": lambda: zmq.error.ZMQError(errno.EINTR),
+            "zmq_eagain": lambda: zmq.error.ZMQError(errno.EAGAIN),
+            "zmq_other": lambda: zmq.error.ZMQError(errno.EINVAL),
+            "zmq_term": lambda: zmq.error.ContextTerminated(),
+        }[kind]()
+    elif kind == "interrupted":
+        e = InterruptedError(errno.EINTR, "interrupted")
+    elif kind == "blockingio":
+        e = BlockingIOError(errno.EAGAIN, "again")
+    elif kind == "oserror":
+        e = OSError(errno.EBADF, "bad fd")
+    elif kind == "cancelled_asyncio":
+        import asyncio
+
+        e = asyncio.CancelledError()
+    elif kind == "cancelled_futures":
+        import concurrent.futures
+
+        e = concurrent.futures.CancelledError()
+    elif kind == "stopiteration":
+        e = StopIteration("x")
+    elif kind == "stopasynciteration":
+        e = StopAsyncIteration()
+    elif kind == "generatorexit":
+        e = GeneratorExit()
+    elif kind == "keyboardinterrupt":
+        e = KeyboardInterrupt()
+    elif kind == "systemexit":
+        e = SystemExit(3)
+    elif kind == "keyerror":
+        e = KeyError(tag)
+    elif kind == "runtimeerror":
+        e = RuntimeError(tag)
+    elif kind == "twisted_notrunning":
+        from twisted.internet import error
+
+        e = error.ReactorNotRunning()
+    else:
+        raise AssertionError(kind)
+    e.tag = tag
+    e.kind = kind
+    return e
+
+
+EXC_KINDS = (
+    "boom", "baseboom", "zmq_again", "zmq_eintr", "zmq_eagain", "zmq_other", "zmq_term", "interrupted", "blockingio", "oserror",
+    "cancelled_asyncio", "cancelled_futures", "stopiteration", "stopasynciteration", "generatorexit", "keyboardinterrupt", "systemexit",
+    "keyerror", "runtimeerror", "twisted_notrunning",
+)  # fmt: skip
 
 
 class Probe:
